@@ -55,6 +55,11 @@ extern struct simk_hooks hooks;
 void simk_init(unsigned seed);
 void simk_end(const char *why, int sig) __attribute__((noreturn));
 void simk_set_schedule(const int *sched, int n);
+void simk_set_sticky(int n);
+void simk_yield(void);
+extern int simk_sched_det;            /* deterministic continuation after the schedule prefix */
+extern int simk_quiet_io;             /* writes are not scheduling points */
+extern int simk_log_dec;              /* log the scheduling decisions after End */
 void simk_progress(void);             /* something observable changed */
 void simk_advance(ns_t d);            /* scripted slow callback */
 void simk_advance_clamped(ns_t d);    /* env op while blocked */
